@@ -179,10 +179,11 @@ Record fixes := {
   fx_factor : bool;    (* factor_column: defaults for absent factor_values / factor_names *)
   fx_match : bool;     (* merge_consecutive: absent match_columns = [] *)
   fx_copy : bool;      (* split_rows: absent copy_columns = [] *)
-  fx_gaps : bool       (* merge_consecutive._update_durations: skip unused group numbers *)
+  fx_gaps : bool;      (* merge_consecutive._update_durations: skip unused group numbers *)
+  fx_disjoint : bool   (* remap_columns.validate_input_data: names of source+destination distinct *)
 }.
-Definition no_fixes : fixes := Build_fixes false false false false false.
-Definition all_fixes : fixes := Build_fixes true true true true true.
+Definition no_fixes : fixes := Build_fixes false false false false false false.
+Definition all_fixes : fixes := Build_fixes true true true true true true.
 
 (* --- remove_rows_op.py: RemoveRowsOp.do_op *)
 Definition do_remove_rows (cn : str) (vals : list pval) (t : table) : res table :=
@@ -701,7 +702,7 @@ Definition parse_operations (ops : json) : res (list opstate) :=
 (* ---------------------------------------------------------------- validator *)
 
 (* <Op>.validate_input_data(parameters): true = no error strings *)
-Definition input_data_ok (st : opstate) : bool :=
+Definition input_data_ok (fx : fixes) (st : opstate) : bool :=
   match st with
   | FactorColumn _ vs ns =>
       match ns, vs with
@@ -710,7 +711,8 @@ Definition input_data_ok (st : opstate) : bool :=
       | _, _ => true
       end
   | RemapColumns s d ml _ ints =>
-      forallb (fun row => Nat.eqb (length row) (length s + length d)) ml
+      (if fx_disjoint fx then nodupb (s ++ d) else true)
+      && forallb (fun row => Nat.eqb (length row) (length s + length d)) ml
       && forallb (fun c => mem_str c s) ints
   | MergeConsecutive cn _ _ _ (Some mc) => negb (mem_str cn mc)
   | _ => true
@@ -739,7 +741,7 @@ Definition item_schema_ok (item : json) : res bool :=
   end.
 
 (* RemodelerValidator.validate: Ok true = the returned message list is EMPTY *)
-Definition validate (ops : json) : res bool :=
+Definition validate (fx : fixes) (ops : json) : res bool :=
   match ops with
   | JArr [] => Ok false
   | JArr l =>
@@ -757,7 +759,7 @@ Definition validate (ops : json) : res bool :=
                                 end
                             | _ => Exn Unmodelled
                             end) l in
-        Ok (forallb input_data_ok sts)
+        Ok (forallb (input_data_ok fx) sts)
   | _ => Ok false
   end.
 
@@ -769,7 +771,7 @@ Inductive outcome :=
 | Ran (final : list opstate) (results : list (res table)).
 
 Definition remodel (fx : fixes) (ops : json) (ts : list table) : res outcome :=
-  let* ok := validate ops in
+  let* ok := validate fx ops in
   if negb ok then Ok Rejected
   else match parse_operations ops with
        | Exn Unmodelled => Exn Unmodelled
